@@ -174,7 +174,7 @@ impl Scenario for ImageScenario {
                     .n(&[rng.range(0, 20), rng.range(1, 255)])
                     .fault("src", gen_benign(rng, 64)),
                 8 => Op::new("MagicPrefix")
-                    .n(&[rng.range(0, 21), rng.range(0, 2)])
+                    .n(&[rng.range(0, 21), rng.range(0, 7)])
                     .fault("src", gen_benign(rng, 64)),
                 _ => Op::new("ReadFull")
                     .fault("src", gen_benign(rng, 4096))
@@ -290,9 +290,61 @@ impl Scenario for ImageScenario {
                             v.extend_from_slice(&image[magic().len()..]);
                             v
                         }
-                        _ => {
+                        2 => {
                             // payload without the magic
                             image[magic().len()..].to_vec()
+                        }
+                        3 => {
+                            // one byte inserted into the header (e.g. LF -> CR LF), body intact
+                            let at = n.min(magic().len());
+                            let mut v = magic()[..at].to_vec();
+                            v.push([b'\r', b' ', 0, b'\n'][n % 4]);
+                            v.extend_from_slice(&image[at..]);
+                            if v[..magic().len()] == *magic() {
+                                v[0] ^= 0x20; // the insertion reproduced the magic: not foreign
+                            }
+                            v
+                        }
+                        4 => {
+                            // one byte of the header lost, body intact
+                            let at = n.min(magic().len() - 1);
+                            let mut v = image.clone();
+                            v.remove(at);
+                            if v.len() >= magic().len() && v[..magic().len()] == *magic() {
+                                v[0] ^= 0x20;
+                            }
+                            v
+                        }
+                        5 => vec![0u8; image.len()], // a zero-filled file
+                        6 => {
+                            // some other file: seeded bytes that do not start like the magic
+                            let mut x = 0x9E37_79B9_7F4A_7C15u64.wrapping_mul(n as u64 + 1) ^ plan.seed ^ plan.run;
+                            let mut v: Vec<u8> = (0..image.len().min(4096))
+                                .map(|_| {
+                                    x ^= x << 13;
+                                    x ^= x >> 7;
+                                    x ^= x << 17;
+                                    (x >> 24) as u8
+                                })
+                                .collect();
+                            if v.first() == magic().first() {
+                                v[0] ^= 0x55;
+                            }
+                            v
+                        }
+                        _ => {
+                            // an image of another format version whose body has another layout
+                            let mut v = magic().to_vec();
+                            if let Some(i) = v.iter().rposition(|b| b.is_ascii_digit()) {
+                                v[i] = if v[i] == b'0' { b'9' } else { v[i] - 1 };
+                            } else {
+                                v[0] ^= 0x20;
+                            }
+                            let mut body = image[magic().len()..].to_vec();
+                            let k = (n * 7 + 3) % body.len().max(1);
+                            body.rotate_left(k);
+                            v.extend_from_slice(&body);
+                            v
                         }
                     };
                     let r = read_image(&img, &op.get_fault("src"), ctx);
@@ -350,7 +402,7 @@ impl Scenario for ImageScenario {
     fn describe(&self) -> ScenarioInfo {
         ScenarioInfo {
             level: "fault_enumeration",
-            rule: "enumerated: every strict prefix length k in [0,len) of each image (connector kind x user lexicon x mapper) is read and must be rejected, plus all 21x255 single-byte substitutions of the magic, every proper prefix of the magic, the 0.4 magic and the magic-less payload; seeded: plans of 2-7 fault operations (torn write at offset k then restart+read, reader hard error at k, prefix read through short/EINTR reads, foreign headers, full-image positive control) over a seeded world. distinct_nontrivial = distinct enumerated (image,offset) cases + distinct plan hashes of seeded runs with >= 1 checked read",
+            rule: "enumerated: every strict prefix length k in [0,len) of each image (connector kind x user lexicon x mapper) is read and must be rejected, plus all 21x255 single-byte substitutions of the magic, every proper prefix of the magic, the 0.4 magic and the magic-less payload; seeded: plans of 2-7 fault operations (torn write at offset k then restart+read, reader hard error at k, prefix read through short/EINTR reads, foreign headers, full-image positive control) over a seeded world. Added later: a tail enumeration (every prefix of the last ~6000 bytes of 96 further images whose last feature is 0-3900 bytes long); magic substitutions also read through a 3-byte-chunked reader; foreign streams in the seeded runs: a byte inserted into / lost from the header with the body intact, zero-filled files, seeded garbage, an old-version header over a rotated body; 1 world in 12 has an empty unk.def. distinct_nontrivial = distinct enumerated (image,offset) cases + distinct plan hashes of seeded runs with >= 1 checked read",
             assumptions: vec![
                 "bit flips inside an otherwise complete image are out of scope (the format has no checksum)",
                 "allocation failure is not injected (aborts the process)",
